@@ -277,12 +277,12 @@ fn initial_lists(cfg: &FCfg) -> PermitBanList {
 impl FWorld {
     fn new(cfg: &FCfg) -> Self {
         v::ban_list_set(initial_lists(cfg));
-        let rl = RateLimiterBuilder::new()
-            .total_n_every(cfg.total_n, Duration::from_nanos(2 * HALF * cfg.total_n))
-            .ip_n_every(cfg.ip_n, Duration::from_nanos(2 * HALF * cfg.ip_n))
-            .node_n_every(cfg.node_n, Duration::from_nanos(2 * HALF * cfg.node_n))
-            .build()
-            .unwrap();
+        // (a quota of one token goes through the builder's `*_one_every` methods)
+        let mut b = RateLimiterBuilder::new();
+        b = if cfg.total_n == 1 { b.total_one_every(Duration::from_nanos(2 * HALF)) } else { b.total_n_every(cfg.total_n, Duration::from_nanos(2 * HALF * cfg.total_n)) };
+        b = if cfg.ip_n == 1 { b.ip_one_every(Duration::from_nanos(2 * HALF)) } else { b.ip_n_every(cfg.ip_n, Duration::from_nanos(2 * HALF * cfg.ip_n)) };
+        b = if cfg.node_n == 1 { b.node_one_every(Duration::from_nanos(2 * HALF)) } else { b.node_n_every(cfg.node_n, Duration::from_nanos(2 * HALF * cfg.node_n)) };
+        let rl = b.build().unwrap();
         let filter = v::VFilter::new(true, Some(rl), None, None, Some(BAN));
         let mut banned_ips = vec![];
         let mut banned_nodes = vec![];
@@ -449,6 +449,9 @@ fn filter_search(cfg: &FCfg, depth: usize, problems: &mut Vec<Violation>) -> (u6
 #[derive(Clone, Copy, Debug, PartialEq, Eq, Hash)]
 enum REv {
     Arrive(u8, u8),
+    /// an unsolicited datagram of the handshake kind (answers no WHOAREYOU): filtered and charged
+    /// like any other; whether it reached the handler is not observable, its effect on the quotas is
+    ArriveHs(u8, u8),
     /// the node itself sends a request to the peer at ip 0 (its address becomes exempt)
     Dial,
     WaitHalf,
@@ -473,10 +476,14 @@ async fn recv_world(lists: u8, hist: &[REv]) -> Result<(u128, u64), Violation> {
     let mk = |clause: &str, key: &str, detail: String| Violation { clause: clause.into(), key: key.into(), detail, replay: json!({"engine":"filter","part":"receive-path","lists":lists,"history":format!("{:?}",hist)}) };
     for (step, ev) in hist.iter().enumerate() {
         match ev {
-            REv::Arrive(i, n) => {
+            REv::Arrive(i, n) | REv::ArriveHs(i, n) => {
+                let is_hs = matches!(ev, REv::ArriveHs(..));
                 let src = SocketAddr::new(ips()[*i as usize], 30303);
                 let exempt = w.nodes[0].wire.exemptions().iter().any(|(a, _)| *a == src);
-                let p = v::VPacket::new_random(&nodes()[*n as usize]);
+                let mut p = v::VPacket::new_random(&nodes()[*n as usize]);
+                if is_hs {
+                    p.kind = discv5::packet::PacketKind::Handshake { src_id: nodes()[*n as usize], id_nonce_sig: vec![7; 64], ephem_pubkey: vec![2; 33], enr_record: None };
+                }
                 let bytes = p.clone().encode(&w.nodes[0].id);
                 for e in w.last_raw.iter_mut() {
                     e.clear();
@@ -494,7 +501,7 @@ async fn recv_world(lists: u8, hist: &[REv]) -> Result<(u128, u64), Violation> {
                     let s1 = if ip_permitted { true } else if refm.banned_ips.contains(i) { false } else if !refm.ip.allows(*i, half) { refm.banned_ips.push(*i); false } else { refm.total.allows(0, half) };
                     s1 && (if node_permitted { true } else if refm.banned_nodes.contains(n) { false } else if !refm.node.allows(*n, half) { refm.banned_nodes.push(*n); false } else { true })
                 };
-                if passed != want {
+                if !is_hs && passed != want {
                     return Err(mk(
                         if exempt { "an address this node is waiting for passes the inbound filter" } else if passed { "unsolicited datagrams beyond quota / from banned senders are dropped" } else { "traffic within every applicable quota is never refused" },
                         &format!("recv:{}:{}", if exempt { "exempt" } else { "unsolicited" }, if passed { "passed" } else { "dropped" }),
@@ -514,12 +521,15 @@ async fn recv_world(lists: u8, hist: &[REv]) -> Result<(u128, u64), Violation> {
             }
         }
     }
-    let fp = mc::fp_of(&(refm.ip.normalized(half), refm.node.normalized(half), refm.total.normalized(half), &refm.banned_ips, &refm.banned_nodes, w.nodes[0].wire.exemptions(), w.submitted.clone()));
+    // the implementation's limiter state is not observable here: the positions of handshake-kind
+    // arrivals in the history keep paths apart that only the reference considers equal
+    let hs_positions: Vec<usize> = hist.iter().enumerate().filter(|(_, e)| matches!(e, REv::ArriveHs(..))).map(|(i, _)| i).collect();
+    let fp = mc::fp_of(&(refm.ip.normalized(half), refm.node.normalized(half), refm.total.normalized(half), &refm.banned_ips, &refm.banned_nodes, w.nodes[0].wire.exemptions(), w.submitted.clone(), hs_positions));
     Ok((fp, exempt_hits))
 }
 
 fn recv_search(depth: usize, problems: &mut Vec<Violation>) -> (u64, u64, u64) {
-    let evs = [REv::Arrive(0, 0), REv::Arrive(0, 1), REv::Arrive(1, 0), REv::Arrive(1, 1), REv::Dial, REv::WaitHalf];
+    let evs = [REv::Arrive(0, 0), REv::Arrive(0, 1), REv::Arrive(1, 0), REv::Arrive(1, 1), REv::ArriveHs(1, 1), REv::ArriveHs(0, 0), REv::Dial, REv::WaitHalf];
     let (mut states, mut execs, mut exempt) = (0u64, 0u64, 0u64);
     for lists in [0u8, 1, 4, 3, 12] {
         let mut seen: HashSet<u128> = HashSet::new();
@@ -557,6 +567,15 @@ fn recv_search(depth: usize, problems: &mut Vec<Violation>) -> (u64, u64, u64) {
 }
 
 pub fn run() {
+    if std::env::var("VERIF_C18_DEBUG").is_ok() {
+        let saved = v::ban_list_snapshot();
+        for lists in [0u8, 4] {
+            let r = crate::rt::run(recv_world(lists, &[REv::ArriveHs(1, 1), REv::Arrive(1, 1)]));
+            eprintln!("lists {lists}: {:?}", r.map_err(|v| (v.key, v.detail)));
+        }
+        v::ban_list_set(saved);
+        return;
+    }
     let mut rep = Report::new("C18", "model_checking");
     let thorough = rep.thorough();
     let mut problems = vec![];
